@@ -349,13 +349,52 @@ def g_int(rng, K):
     """operand of 2^K bits: boundary values / directed limbs {0,1,2^63,2^64-1,..} / random length"""
     Bk = 1 << (1 << K)
     n = 1 << (K - 6)
-    r = rng.below(8)
+    r = rng.below(9)
     if r == 0:
         h = 1 << (1 << (K - 1))
         return rng.choice([0, 1, 2, Bk - 1, Bk // 2, Bk // 2 - 1, Bk // 2 + 1, Bk - 2, h - 1, h, h + 1, Bk - h, Bk - h - 1])
+    if r == 8:
+        return g_limbwise(rng, K)
     if r < 6:
         return vf.limbs_value(rng, n)
     return rng.bits(rng.range(1, 1 << K))
+
+
+DIRECTED_LIMBS = [0, 1, 1 << 63, (1 << 64) - 1]
+
+
+def g_limbwise(rng, K, interior_zero=True):
+    """value built limb by limb from {0, 1, 2^63, 2^64-1, random}; with interior_zero (and K >= 7) at least one zero limb
+    lies BELOW a non-zero limb (loops over the limbs of an operand must not treat such a limb as 'nothing to do')"""
+    n = 1 << (K - 6)
+    limbs = [rng.choice(DIRECTED_LIMBS) if rng.chance(2, 3) else rng.bits(64) for _ in range(n)]
+    if interior_zero and n >= 2:
+        z = rng.below(n - 1)                       # the zero limb
+        limbs[z] = 0
+        if rng.chance(1, 2):                       # a run of zero limbs
+            for j in range(z, min(n - 1, z + 1 + rng.below(n))):
+                limbs[j] = 0
+        top = rng.range(max(z + 1, [j for j in range(n) if limbs[j] == 0][-1] + 1 if limbs[n - 1] else n - 1), n - 1)
+        if limbs[top] == 0:
+            limbs[top] = rng.choice([1, 1 << 63, (1 << 64) - 1, rng.bits(64) | 1])
+        if rng.chance(1, 2):                       # nothing above the chosen top limb: a short operand
+            for j in range(top + 1, n):
+                limbs[j] = 0
+    v = 0
+    for j, l in enumerate(limbs):
+        v |= l << (64 * j)
+    return v
+
+
+def has_interior_zero_limb(x):
+    seen_zero = False
+    while x:
+        if x & ((1 << 64) - 1) == 0:
+            seen_zero = True
+        elif seen_zero:
+            return True
+        x >>= 64
+    return False
 
 
 def g_word(rng, maxbits=64):
@@ -672,7 +711,11 @@ def gen_args(rng, K, gen, spec):
         if rng.chance(1, 2):
             b %= nmod
         if gen == "exp":
-            c = rng.choice([0, 1, 2, 3, g_int(rng, K), g_int(rng, K) >> rng.below(n), Bk - 1])
+            # the exponent is scanned limb by limb: zero limbs below non-zero ones, single high bits, short exponents
+            c = rng.choice([0, 1, 2, 3, 65537, g_int(rng, K), g_int(rng, K) >> rng.below(n), Bk - 1,
+                            g_limbwise(rng, K), g_limbwise(rng, K), g_limbwise(rng, K),
+                            (1 << 64) % Bk, ((1 << 128) + 5) % Bk, Bk >> 1, 1 << (64 * rng.below(n // 64)),
+                            (1 << (64 * rng.below(n // 64))) | (1 << rng.below(n))])
         else:
             c = g_word(rng, 32 if gen == "expw32" else 64)
         return [b, c, nmod]
@@ -801,8 +844,24 @@ def case_count(v, info, K, tier):
     return base
 
 
+def extra_count(v, info, K, tier):
+    """additional cases compared with the specification oracle only (the model run would dominate the time): the
+    implementation is exercised at every K on many more operands than the model can follow"""
+    fl = info["flags"]
+    q = tier == "quick"
+    if "vheavy" in fl:
+        return (12 if K <= 9 else 8) if q else (400 if K <= 9 else 100)
+    if "heavy" in fl:
+        return (10 if K <= 9 else 6) if q else (300 if K <= 9 else 80)
+    return 0
+
+
+NO_MODEL = set()        # indices of the cases of the current run that are not given to the model
+
+
 def build_cases(rng, tier):
     cases = []
+    NO_MODEL.clear()
     for v, info in sorted(VARIANTS.items()):
         for K in KS:
             fl = info["flags"]
@@ -817,6 +876,9 @@ def build_cases(rng, tier):
                 if info["spec"] == "sub_1" and i < 3:
                     a = [i]
                 cases.append((v, K, a))
+            for i in range(extra_count(v, info, K, tier)):
+                NO_MODEL.add(len(cases))
+                cases.append((v, K, gen_args(rng, K, info["gen"], info["spec"])))
     return cases
 
 
@@ -916,7 +978,7 @@ def main(tier, replay=None):
                           "on one of the generated inputs)" % p, err)
             for j, i in enumerate(idx[p]):
                 iout[i] = out[j]
-    midx = [i for i, (v, K, a) in enumerate(cases) if VARIANTS[v]["model"]]
+    midx = [i for i, (v, K, a) in enumerate(cases) if VARIANTS[v]["model"] and i not in NO_MODEL]
     mout = {}
     if drv:
         rc, out, err = run_split(drv, [line(VARIANTS[cases[i][0]]["model"], cases[i][1], cases[i][2]) for i in midx], ncpu, 2400)
